@@ -2,6 +2,10 @@ import Moyo.Model.Wire
 import Moyo.Model.HNF
 import Moyo.Model.NFSpec
 import Moyo.Model.Hall
+import Moyo.Model.DriverC14
+import Moyo.Model.DriverPipe
+import Moyo.Model.DriverC19
+import Moyo.Model.DriverC20
 import Moyo.Generated.HallTable
 import Moyo.Generated.ArithTable
 import Moyo.Generated.MagTable
@@ -106,11 +110,14 @@ def cmdEntry (kind : String) (arg : String) : String :=
     | some e => s!"{e.arithmeticNumber} |{e.symbol}| {e.geometricClass} {e.bravaisClass}"
   | _, _ => "bad-op"
 
-def step (line : String) : String :=
+/-- Core commands (normal forms, Hall symbols, table rows). `none` = not one of ours. -/
+def stepCore (line : String) : Option String :=
   let cs := (line.toList.reverse.dropWhile (fun c => c = '\n' || c = '\r')).reverse
-  if "hall ".toList.isPrefixOf cs then cmdHall false (String.ofList (cs.drop 5)) else
-  if "mhall ".toList.isPrefixOf cs then cmdHall true (String.ofList (cs.drop 6)) else
-  match tokens line with
+  if "hall ".toList.isPrefixOf cs then some (cmdHall false (String.ofList (cs.drop 5))) else
+  if "mhall ".toList.isPrefixOf cs then some (cmdHall true (String.ofList (cs.drop 6))) else
+  if cs = "hall".toList then some (cmdHall false "") else
+  if cs = "mhall".toList then some (cmdHall true "") else
+  some <| match tokens line with
   | "hnf" :: args => cmdHnf args
   | "snf" :: args => cmdSnf args
   | "hnfcheck" :: args => cmdHnfCheck args
@@ -121,6 +128,21 @@ def step (line : String) : String :=
        else if arg = "standard" then natsToString Moyo.Generated.standardHallNumbers.toList else "bad-op")
     else cmdEntry kind arg
   | _ => "bad-op"
+
+/-- Handler chain: each handler takes the raw request line and answers `some reply` if the command
+is its own.  Add new handlers (one per driver module `Moyo/Model/Driver*.lean`) BEFORE `stepCore`. -/
+def handlers : List (String → Option String) := [
+  Moyo.DriverPipe.step?,
+  Moyo.DriverC14.step?,
+  Moyo.DriverC19.step?,
+  Moyo.DriverC20.step?,
+  stepCore
+]
+
+def step (line : String) : String :=
+  match handlers.findSome? (fun h => h line) with
+  | some r => r
+  | none => "bad-op"
 
 partial def loop (hin : IO.FS.Stream) (hout : IO.FS.Stream) : IO Unit := do
   let line ← hin.getLine
